@@ -3,6 +3,8 @@ package quic
 //vx:pkg github.com/refraction-networking/uquic
 //vx:entry Harness_C10_pack_flight
 //vx:param all maxdepth=6000 maxsteps=20000000
+//vx:param quick ncuts=6
+//vx:param thorough ncuts=12
 //vx:reach Harness_C10_pack_flight C10.pf.datagram C10.pf.second-datagram C10.pf.flight-complete C10.pf.plan-rejected C10.pf.retransmission
 
 import (
@@ -25,7 +27,7 @@ import (
 // is an error before anything is sent.
 func Harness_C10_pack_flight() {
 	chLen := vxPick("clientHelloLen", []int{1600, 1300, 2500})
-	cut := vxPick("cut", []int{400, 1000, 1200, 380, 391, 1180})
+	cut := vxPick("cut", []int{400, 1000, 1200, 380, 391, 1180, 386, 388, 1187, 1190, 1, 1299}[:vx_param("ncuts")])
 	maxSize := protocol.ByteCount(vxPick("maxPacketSize", []int{1252, 1350}))
 	dcid := protocol.ParseConnectionID(vx_bytesN("dcid", 8))
 	ch := vx_bytesN("clienthello", chLen)
